@@ -157,8 +157,7 @@ theorem geteuid_nm : NM Sys.geteuid := by
   dsimp only
   split <;> exact trivial
 
-theorem freeze_probe_nm (fuel : Nat) (hf : ∀ fd, NM (Sys.freeze fuel fd)) :
-    ∀ cands, NM (Sys.freeze.probe fuel cands) := by
+theorem freeze_probe_nm : ∀ cands, NM (Sys.freeze.probe cands) := by
   intro cands
   induction cands with
   | nil => rw [Sys.freeze.probe.eq_1]; exact trivial
@@ -167,29 +166,18 @@ theorem freeze_probe_nm (fuel : Nat) (hf : ∀ fd, NM (Sys.freeze fuel fd)) :
     refine ⟨rfl, fun r => ?_⟩
     dsimp only
     split
-    · apply NM.bind (hf _)
-      intro ok
-      split
-      · exact ih
-      · exact trivial
+    · exact ih
     · exact trivial
 
-theorem freeze_nm (fuel : Nat) : ∀ fd, NM (Sys.freeze fuel fd) := by
-  induction fuel with
-  | zero => intro fd; rw [Sys.freeze.eq_1]; exact trivial
-  | succ n ih =>
-    intro fd
-    rw [Sys.freeze.eq_2]
-    apply NM.bind gettid_nm
-    intro tid
-    apply NM.bind (freeze_probe_nm n ih _)
-    intro x
-    split
-    · exact trivial
-    · exact trivial
-    · split
-      · exact trivial
-      · exact ⟨rfl, fun _ => trivial⟩
+theorem freeze_nm (fd : Fd) : NM (Sys.freeze fd) := by
+  unfold Sys.freeze
+  apply NM.bind gettid_nm
+  intro tid
+  apply NM.bind (freeze_probe_nm _)
+  intro x
+  split
+  · exact trivial
+  · exact ⟨rfl, fun _ => trivial⟩
 
 theorem failWith_go_nm {α : Type} (e : Nat) : ∀ fds, NM (Sys.failWith.go (α := α) e fds) := by
   intro fds
@@ -197,18 +185,16 @@ theorem failWith_go_nm {α : Type} (e : Nat) : ∀ fds, NM (Sys.failWith.go (α 
   | nil => unfold Sys.failWith.go; exact trivial
   | cons fd rest ih =>
     unfold Sys.failWith.go
-    apply NM.bind (freeze_nm _ fd)
-    intro ok
-    split
-    · exact ih
-    · exact trivial
+    apply NM.bind (freeze_nm fd)
+    intro _
+    exact ih
 
 theorem failWith_nm {α : Type} (fds : List Fd) (e : Nat) : NM (Sys.failWith (α := α) fds e) := by
   unfold Sys.failWith
   exact failWith_go_nm e fds
 
 macro_rules | `(tactic| nm_lemma) => `(tactic| with_reducible exact failWith_nm _ _)
-macro_rules | `(tactic| nm_lemma) => `(tactic| with_reducible exact freeze_nm _ _)
+macro_rules | `(tactic| nm_lemma) => `(tactic| with_reducible exact freeze_nm _)
 macro_rules | `(tactic| nm_lemma) => `(tactic| with_reducible exact gettid_nm)
 macro_rules | `(tactic| nm_lemma) => `(tactic| with_reducible exact geteuid_nm)
 
@@ -275,6 +261,14 @@ theorem fstatat_nm (dir : Fd) (name : Bytes) : NM (Sys.fstatat dir name) := by
   unfold Sys.fstatat
   nm
 
+theorem existsAt_nm (dir : Fd) (name : Bytes) : NM (Sys.existsAt dir name) := by
+  unfold Sys.existsAt
+  split
+  · exact trivial
+  · refine ⟨rfl, fun r => ?_⟩
+    dsimp only
+    split <;> exact trivial
+
 theorem statx_nm (dir : Fd) (name : Bytes) (mask : Nat) : NM (Sys.statx dir name mask) := by
   unfold Sys.statx
   nm
@@ -330,6 +324,7 @@ theorem releaseMany_nm (a b : List Fd) : NM (Opath.releaseMany a b) := by
 macro_rules | `(tactic| nm_lemma) => `(tactic| with_reducible exact openat2_nm _ _ _ _)
 macro_rules | `(tactic| nm_lemma) => `(tactic| with_reducible exact readlinkat_nm _ _)
 macro_rules | `(tactic| nm_lemma) => `(tactic| with_reducible exact fstatat_nm _ _)
+macro_rules | `(tactic| nm_lemma) => `(tactic| with_reducible exact existsAt_nm _ _)
 macro_rules | `(tactic| nm_lemma) => `(tactic| with_reducible exact statx_nm _ _ _)
 macro_rules | `(tactic| nm_lemma) => `(tactic| with_reducible exact fstatfs_nm _)
 macro_rules | `(tactic| nm_lemma) => `(tactic| with_reducible exact close_nm _)
